@@ -567,6 +567,48 @@ func enumSmall() []*Hier {
 	return out
 }
 
+// enumLattices enumerates every extends-DAG over 4 interfaces (edges to lower indices, all 64
+// subsets) in two listing orders, under a fixed small class forest: C0 implements only the
+// top interface, C1 extends C0, C2 implements the two upper interfaces, C3 extends C2.
+// This puts "the k-th parent of an interface at depth d" on every position systematically.
+func enumLattices() []*Hier {
+	var out []*Hier
+	type edge struct{ a, b int }
+	var edges []edge
+	for a := 1; a < 4; a++ {
+		for b := 0; b < a; b++ {
+			edges = append(edges, edge{a, b})
+		}
+	}
+	for mask := 0; mask < 1<<len(edges); mask++ {
+		for order := 0; order < 2; order++ {
+			h := newHier(4, 4)
+			h.Parent = []int{-1, 0, -1, 2}
+			for k, e := range edges {
+				if mask&(1<<k) != 0 {
+					h.IExt[e.a] = append(h.IExt[e.a], e.b)
+				}
+			}
+			if order == 1 {
+				for i := range h.IExt {
+					l := h.IExt[i]
+					for a, b := 0, len(l)-1; a < b; a, b = a+1, b-1 {
+						l[a], l[b] = l[b], l[a]
+					}
+				}
+			}
+			h.Impl[0] = []int{3}
+			if order == 0 {
+				h.Impl[2] = []int{2, 3}
+			} else {
+				h.Impl[2] = []int{3, 2}
+			}
+			out = append(out, h)
+		}
+	}
+	return out
+}
+
 func (h *Hier) clone() *Hier {
 	g := newHier(h.NC, h.NI)
 	copy(g.Parent, h.Parent)
